@@ -4,11 +4,94 @@
 use crate::arr::*;
 use crate::util::*;
 
+/// A fixed family aimed at values that get SHORTER and are then written again: one 4x4 chunk (one shard) of small inner
+/// chunks, index at either end, with or without a bytes-to-bytes codec after the sharding codec (whose default partial
+/// encoder rewrites the value at offset 0) and inside it; histories: everything written, trailing rows := fill, one
+/// element at the front, the leading rows := fill, one element at the back, with the raw value and a whole read after each.
+fn shrink_family(rng: &mut Rng, thorough: bool, out: &mut Vec<String>) {
+    let dts = dtypes();
+    for dname in ["uint8", "uint16", "int32"] {
+        let dt = dts.iter().find(|d| d.name == dname).unwrap().clone();
+        let es = dt.es.unwrap();
+        for inner in [[1u64, 1], [1, 2], [2, 2], [1, 4]] {
+            for loc in ["start", "end"] {
+                for (oj, od) in [("", ""), (",{\"name\":\"crc32c\"}", "|crc32c"), (",{\"name\":\"numcodecs.fletcher32\"}", "|fletcher32"), (",{\"name\":\"gzip\",\"configuration\":{\"level\":1}}", "|gzip")] {
+                    if !thorough && rng.chance(1, 2) { continue; }
+                    let isum = rng.chance(1, 2);
+                    let endian = if es > 1 { ",\"configuration\":{\"endian\":\"little\"}" } else { "" };
+                    let ic = format!("[{{\"name\":\"bytes\"{}}}{}]", endian, if isum { ",{\"name\":\"crc32c\"}" } else { "" });
+                    let json = format!("[{{\"name\":\"sharding_indexed\",\"configuration\":{{\"chunk_shape\":[{},{}],\"codecs\":{},\"index_codecs\":[{{\"name\":\"bytes\",\"configuration\":{{\"endian\":\"little\"}}}},{{\"name\":\"crc32c\"}}],\"index_location\":\"{}\"}}}}{}]", inner[0], inner[1], ic, loc, oj);
+                    let cfg = Cfg { dtype: dt.clone(), fill: dt.fills[0].clone(), shape: vec![4, 4], grid: vec![(true, vec![4]), (true, vec![4])], regular_impl: true,
+                        keys: ("default".into(), "/".into()), codecs_json: json,
+                        chain_desc: format!("shard[{}x{};{};le+crc;bytes{}]{}", inner[0], inner[1], loc, if isum { "|crc32c" } else { "" }, od),
+                        sharded: true, path: "/s".into(), eff_inner: Some(inner.to_vec()) };
+                    out.push(cfg.cfg_line("c05", "memory", false, true, ""));
+                    let nonfill = |rng: &mut Rng, n: u64| { let xs: Vec<Vec<u8>> = (0..n).map(|_| { let mut e = rng.bytes(es); if e == cfg.fill.1 { e[0] ^= 0x55; } e }).collect(); show_elems(&xs) };
+                    let fillv = |n: u64| show_elems(&vec![cfg.fill.1.clone(); n as usize]);
+                    let both = |out: &mut Vec<String>| { out.push("c05 op raw c=0,0".into()); out.push("c05 op retrieve_chunk c=0,0".into()); };
+                    out.push(format!("c05 op store_chunk c=0,0 data={}", nonfill(rng, 16)));
+                    both(out);
+                    let h = rng.range(1, 3);
+                    out.push(format!("c05 op store_chunk_subset c=0,0 r={},0+{},4 data={}", h, 4 - h, fillv((4 - h) * 4)));
+                    both(out);
+                    out.push(format!("c05 op store_chunk_subset c=0,0 r=0,0+1,1 data={}", nonfill(rng, 1)));
+                    both(out);
+                    out.push(format!("c05 op store_chunk_subset c=0,0 r=0,0+{},4 data={}", h, fillv(h * 4)));
+                    both(out);
+                    out.push(format!("c05 op store_chunk_subset c=0,0 r=3,3+1,1 data={}", nonfill(rng, 1)));
+                    both(out);
+                    out.push(format!("c05 op store_chunk_subset c=0,0 r=0,1+2,2 data={}", nonfill(rng, 4)));
+                    both(out);
+                    out.push(format!("c05 op store_chunk_subset c=0,0 r=0,0+4,4 data={}", fillv(16)));
+                    both(out);
+                    out.push(format!("c05 op store_chunk_subset c=0,0 r=1,1+1,2 data={}", nonfill(rng, 2)));
+                    both(out);
+                    out.push("c05 op reopen".into());
+                    out.push("c05 op retrieve_array_subset r=0,0+4,4".into());
+                }
+            }
+        }
+    }
+}
+
+/// A value-mapping array->array codec (lossless fixedscaleoffset, offset 1): the ENCODED fill value differs from the fill
+/// value. Histories that make a chunk consist entirely of the value whose encoding is the fill value (`fill + 1`) and of
+/// the encoded fill value itself (`fill - 1`): neither chunk is "all fill"; both must be stored and read back.
+fn value_mapping_family(rng: &mut Rng, out: &mut Vec<String>) {
+    let dts = dtypes();
+    let dt = dts.iter().find(|d| d.name == "int32").unwrap().clone();
+    for fi in 0..dt.fills.len() {
+        for tail in ["{\"name\":\"bytes\",\"configuration\":{\"endian\":\"little\"}}", "{\"name\":\"bytes\",\"configuration\":{\"endian\":\"big\"}},{\"name\":\"crc32c\"}", "{\"name\":\"transpose\",\"configuration\":{\"order\":[1,0]}},{\"name\":\"bytes\",\"configuration\":{\"endian\":\"little\"}},{\"name\":\"gzip\",\"configuration\":{\"level\":1}}"] {
+            let json = format!("[{{\"name\":\"numcodecs.fixedscaleoffset\",\"configuration\":{{\"offset\":1,\"scale\":1,\"dtype\":\"<i4\",\"astype\":\"<i4\"}}}},{}]", tail);
+            let cfg = Cfg { dtype: dt.clone(), fill: dt.fills[fi].clone(), shape: vec![4, 2], grid: vec![(true, vec![2]), (true, vec![2])], regular_impl: true,
+                keys: ("default".into(), "/".into()), codecs_json: json, chain_desc: "fso1|bytes".into(), sharded: false, path: "/v".into(), eff_inner: None };
+            let f = i32::from_le_bytes(cfg.fill.1.clone().try_into().unwrap());
+            for special in [f.wrapping_sub(1), f.wrapping_add(1)] {
+                out.push(cfg.cfg_line("c05", "memory", false, true, ""));
+                let v = special.to_le_bytes().to_vec();
+                let row = show_elems(&vec![v.clone(); 2]);
+                for c in ["0,0", "1,0"] {
+                    out.push(format!("c05 op store_chunk_subset c={} r=0,0+1,2 data={}", c, row));
+                    out.push(format!("c05 op store_chunk_subset c={} r=1,0+1,2 data={}", c, row));
+                    out.push(format!("c05 op retrieve_chunk c={}", c));
+                    out.push(format!("c05 op raw c={}", c));
+                    if rng.chance(1, 2) { out.push(format!("c05 op store_chunk_subset c={} r=0,1+2,1 data={}", c, show_elems(&vec![cfg.fill.1.clone(); 2]))); out.push(format!("c05 op retrieve_chunk c={}", c)); }
+                }
+                out.push("c05 op keys".into());
+                out.push("c05 op reopen".into());
+                out.push("c05 op retrieve_array_subset r=0,0+4,2".into());
+            }
+        }
+    }
+}
+
 pub fn generate(tier: &str, seed: u64) -> Vec<String> {
     let mut rng = Rng::new(seed ^ 0xC05);
     let thorough = tier == "thorough";
     let ncfg = if thorough { 5000 } else { 450 };
     let mut out = vec![];
+    shrink_family(&mut rng, thorough, &mut out);
+    value_mapping_family(&mut rng, &mut out);
     let mut k = 0;
     while k < ncfg {
         let cfg = gen_cfg(&mut rng, if k % 3 != 2 { Some(true) } else { Some(false) });
@@ -93,5 +176,7 @@ pub fn generate(tier: &str, seed: u64) -> Vec<String> {
         out.push("c05 op reopen".into());
         gen_full_reads(&mut rng, &cfg, &mut out, "c05");
     }
+    // histories of partial encodes on (nested) sharded chains, judged by `ChainS.partialEncode`: see c05c.rs
+    out.extend(crate::c05c::generate(tier, seed));
     out
 }
